@@ -30,7 +30,7 @@ def _ints(arr, scale):
     return [int(round(float(v) * scale)) for v in np.ravel(arr)]
 
 
-RAW_DEFAULT = {"x0": [], "x1": [], "b0": [], "b1": [], "names0": [], "names1": []}
+RAW_DEFAULT = {"x0": [], "x1": [], "b0": [], "b1": [], "names0": [], "names1": [], "stream_decides": True}
 
 
 def one_call(eng, conf, info, zm, vel_rev, seed, work, tag, multiframe=False):
@@ -87,6 +87,7 @@ def one_call(eng, conf, info, zm, vel_rev, seed, work, tag, multiframe=False):
         "x0": _ints(x0, 1e6), "x1": _ints(x1, 1e6),
         "b0": [] if b0 is None else _ints(np.ravel(b0)[:3], 1e4), "b1": [] if b1 is None else _ints(np.ravel(b1)[:3], 1e4),
         "names0": [str(a) for a in (n0 or [])], "names1": [str(a) for a in (n1 or [])],
+        "stream_decides": True,
         "source_bytes_same": before == after, "caller_system_same": True,
         "config_is_new_file": os.path.abspath(s.config[0]) != os.path.abspath(src) and os.path.isfile(s.config[0]),
         "config_index_zero": s.config[1] in (0, None),
